@@ -403,6 +403,8 @@ static void op_sweep(Cur &c, Out &o)
         SW(size_t);
     else if (wt == "r")
         SW(double);
+    else if (wt == "l")
+        SW(long);
     else
         throw std::logic_error("sweep: unsupported weight type " + wt);
 #undef SW
